@@ -353,7 +353,8 @@ struct NameUnit : Unit
    void reset() override
    {
       delete ns;
-      if(rnd) ns = new NameSet(g.range(1, 6), g.range(1, 20), 1.0 + 0.25 * g.range(0, 6), 1.0 + 0.25 * g.range(0, 6));
+      // the entry factor is also the growth factor of the hash table: only values for which DataHashTable::reMax terminates
+      if(rnd) ns = new NameSet(g.range(1, 6), g.range(1, 20), 1.5 + 0.25 * g.range(0, 4), 1.0 + 0.25 * g.range(0, 6));
       else ns = new NameSet(2, 8, 2, 2);
       byName.clear();
       byKey.clear();
@@ -662,8 +663,13 @@ struct HashUnit : Unit
    {
       delete ht;
       bool wide = rnd && g.chance(0.3);
-      if(rnd) ht = new HT(wide ? hkeyHashWide : hkeyHash, g.range(1, 12), g.chance(0.3) ? 1 : 0, 1.0 + 0.25 * g.range(1, 6));
-      else ht = new HT(hkeyHash, 2, 0, 2.0);
+      probeHashRemax(this);
+      if(rnd) ht = new HT(wide ? hkeyHashWide : hkeyHash, g.range(1, 12), g.chance(0.3) ? 1 : 0, 1.5 + 0.25 * g.range(0, 4));
+      else
+      {
+         probeHashRemax(this);
+         ht = new HT(hkeyHash, 2, 0, 2.0);
+      }
       model.clear();
       nextVal = 1;
    }
